@@ -481,6 +481,12 @@ func stressOnce(seed int64, nReaders, nWriters, txPerWriter int, withObserver bo
 		mu.Unlock()
 	}
 	cfg := engine.Config{PageSize: 1024, MaxSize: 256 * 1024, InitMetaArea: 4}
+	// every third run: an unbounded file that append-only transactions grow past its mapping (remaps while
+	// readers come and go)
+	appendOnly := seed%3 == 0
+	if appendOnly {
+		cfg.MaxSize = 0
+	}
 	if withObserver {
 		cfg.Observer = nopObserver{}
 	}
@@ -576,6 +582,20 @@ func stressOnce(seed int64, nReaders, nWriters, txPerWriter int, withObserver bo
 				if att := atomic.LoadUint64(&attempted); cur < before || cur > att {
 					fail("writer sees version %d, commits completed before its Begin: %d, highest attempted: %d", cur, before, att)
 				}
+				if appendOnly && t%2 == 1 {
+					// a transaction that touches no existing page: new pages only (no overwrite page, no new mapping)
+					if pages, err := tx.AllocN(24 + r.Intn(40)); err == nil {
+						buf := make([]byte, 1024)
+						for _, pg := range pages[:4] {
+							pg.SetBytes(buf)
+						}
+					}
+					atomic.AddInt32(&writersActive, -1)
+					if err := tx.Commit(); err != nil {
+						fail("Commit (append only): %v", err)
+					}
+					continue
+				}
 				stamp(tx, cur+1)
 				if r.Intn(3) == 0 {
 					tx.Flush()
@@ -619,7 +639,15 @@ func stressOnce(seed int64, nReaders, nWriters, txPerWriter int, withObserver bo
 				}
 				v1, ok := readOnce(tx)
 				if ok {
+					// the slice of the first page stays valid and unchanged while the reader is open
+					var held []byte
+					if p0, err := tx.Page(ids[0]); err == nil {
+						held, _ = p0.Bytes()
+					}
 					time.Sleep(time.Duration(rd%3) * 50 * time.Microsecond)
+					if held != nil && binary.LittleEndian.Uint64(held) != v1 {
+						fail("the bytes a reader obtained from Page.Bytes changed while the reader is open (version %d, now %d)", v1, binary.LittleEndian.Uint64(held))
+					}
 					v2, ok2 := readOnce(tx)
 					if ok2 && v1 != v2 {
 						fail("reader view changed while open: %d then %d", v1, v2)
